@@ -312,7 +312,9 @@ func (h *handler) cancelAndWaitForStreams() {
 		h.mu.Unlock()
 
 		sh.cancel()
+		verifhook.Emit("srv.wait.pick", 0, "")
 		<-sh.done
+		verifhook.Emit("srv.wait.taken", 0, "")
 
 		h.mu.Lock()
 	}
@@ -549,6 +551,7 @@ func (h *handler) runStream(
 			if !ok {
 				return nil, fmt.Errorf("rCh closed")
 			}
+			verifhook.Emit("srv.stream.recv", streamId, "")
 			return msg, nil
 		case <-ctx.Done():
 			return nil, ctx.Err()
@@ -559,6 +562,7 @@ func (h *handler) runStream(
 		case <-ctx.Done():
 			return ctx.Err()
 		case h.writeChan <- r:
+			verifhook.Emit("srv.stream.sent", streamId, "")
 			break
 		}
 		return nil
@@ -654,6 +658,7 @@ func (h *handler) resetStream(rpc *goatorepo.Rpc) error {
 	// Through the single writer, so that it cannot overtake the stream's trailer.
 	select {
 	case h.writeChan <- reset:
+		verifhook.Emit("srv.reset.handoff", reset.GetId(), "")
 		return nil
 	case <-h.ctx.Done():
 		return context.Cause(h.ctx)
